@@ -31,6 +31,11 @@ if mods:
         'LbzVerif.Props.C05.emit_sound',
         'LbzVerif.Props.C05.Parse.magic_enforced',
         'LbzVerif.Props.C05.Parse.eof_rule',
+        'LbzVerif.Props.C05.Tree.makeTree_sound',
+        'LbzVerif.Props.C05.Block.retrieve_sound',
+        'LbzVerif.Props.C05.Block.retrieve_rejects_malformed',
+        'LbzVerif.Props.C05.BlockDecode.block_decode_sound',
+        'LbzVerif.Props.C05.ibwt_sound_all',
     ])
 inproc.run_libs(ck, ['w12_emit', 'w11_prefix', 'w10_mtf', 'w15_retrieve'])
 exe = ck.build_lbzip2(asan=False)
